@@ -7,7 +7,7 @@ Driver for C09: `geomv_c09 judge` reads `<case> => <implementation result>` line
 verdict per line.
 
   OK <class>
-  DIFF <class> <why>   the implementation differs from the Go model `Model.*` (correspondence)
+  DIFF <class> <why>   the implementation differs from the Go model `Model.*` by more than 10 µm (correspondence)
   SPEC <class> <why>   the implementation's answer violates the specification: it differs from
                        the proj4js model `Js.*` by more than 0.1 mm, from a reference formula of
                        `Spec.Ref` by more than 5 mm, or (parse lines) an exported SR field differs
@@ -143,7 +143,12 @@ def judgeHop (src dst : String) (x y : Float) (h : Hop) : Option String :=
         else some s!"SPEC {tag} proj4js-fails-({e})-port-answers ({fmt ix},{fmt iy})"
       | .ok (jx, jy) =>
         let dj := dist sc (ix, iy) (jx, jy)
-        if dj > Spec.tolJs then
+        -- identical source and destination: the transformation is the identity and the port returns
+        -- the input unchanged (nil transformer); proj4js runs inverse∘forward, whose own round-trip
+        -- noise (iteration stops at 1e-10 rad) is not a disagreement about the transformation.
+        -- Sanity bound 1 cm instead of 0.1 mm.
+        let tol := (match h with | .same _ _ => if ident then 1.0e-2 else Spec.tolJs | _ => Spec.tolJs)
+        if dj > tol then
           -- name the cause when it is the height dropped between the two hops through WGS84
           let cause :=
             if Model.isTwoHop (α := Float) src dst then
@@ -190,7 +195,9 @@ def judgeHop (src dst : String) (x y : Float) (h : Hop) : Option String :=
       | .error e => if ix.isNaN || iy.isNaN then none else some s!"DIFF {tag} model-rejects-({e})-impl-answers"
       | .ok (mx, my) =>
         let dm := dist sc (ix, iy) (mx, my)
-        if dm > 1.0e-6 then some s!"DIFF {tag} model-differs-by-{fmt dm}m impl=({fmt ix},{fmt iy}) model=({fmt mx},{fmt my})" else none
+        -- 10 µm: Go `math` vs libm differ in the last place, which ill-conditioned constants
+        -- (standard parallels 0.06° apart) amplify to ~1 µm
+        if dm > 1.0e-5 then some s!"DIFF {tag} model-differs-by-{fmt dm}m impl=({fmt ix},{fmt iy}) model=({fmt mx},{fmt my})" else none
     match a, b, c with
     | some s, _, _ => some s
     | none, some s, _ => some s
